@@ -29,8 +29,8 @@ fn be_payload(
     let offset = datagram.len() - remain_len;
     let input = &datagram[offset..];
     let (remain, payload) = length_data(be_varint).parse(input).map_err(|e| match e {
-        ne @ nom::Err::Incomplete(_) => Error::IncompleteHeader(pkty, ne.to_string()),
-        _ => unreachable!("parsing packet header never generates error or failure"),
+        // e.g. a length that does not fit: the packet is malformed, drop it
+        ne => Error::IncompleteHeader(pkty, ne.to_string()),
     })?;
     let payload_len = payload.len();
     if payload_len < 20 {
@@ -52,8 +52,8 @@ pub fn be_packet(datagram: &mut BytesMut, dcid_len: usize) -> Result<Packet, Err
         _ => unreachable!("parsing packet type never generates failure"),
     })?;
     let (remain, header) = be_header(pkty, dcid_len, remain).map_err(|e| match e {
-        ne @ nom::Err::Incomplete(_) => Error::IncompleteHeader(pkty, ne.to_string()),
-        _ => unreachable!("parsing packet header never generates error or failure"),
+        // e.g. a connection id length above 20: the packet is malformed, drop it
+        ne => Error::IncompleteHeader(pkty, ne.to_string()),
     })?;
     match header {
         Header::VN(header) => {
